@@ -46,7 +46,8 @@ func c19SharedDump(c *Ctx) {
 				alive = append(alive[:j], alive[j+1:]...)
 			}
 			if i%25 == 0 {
-				*log = append(*log, fmt.Sprint("used ", w.Stats().Entities.Used))
+				st := w.Stats()
+				*log = append(*log, fmt.Sprint("used ", st.Entities.Used, len(st.String())))
 			}
 		}
 		cnt := 0
